@@ -152,6 +152,7 @@ class Driver:
                 fi = self.model.funcs[q]
                 self.I.ctx_stack.append((fi.module, fi.cls))
                 try:
+                    self.I.steps = 0
                     res = self.I.call_func(q, [root, self._kid_ctx(node)], {}, st)
                 finally:
                     self.I.ctx_stack.pop()
